@@ -325,7 +325,9 @@ class workq:
             except BaseException:
                 # e.g. the client went away while waiting: a job that was
                 # handed over in the meantime goes back to the queue
-                if ev.successful():
+                if ev.successful() and not ev.value.done:
+                    # (a job killed or timed out since the hand-over stays finished:
+                    # pushing it again would also shadow a job added anew under its id)
                     self.pushjob(ev.value)
                 raise
             finally:
